@@ -606,13 +606,17 @@ Section Chain.
       inversion H; subst. split; [reflexivity|]. apply Ha; auto.
     Qed.
 
+    (* the wrapper closure (either form) is not a block operand: nothing of it is hoisted *)
+    Lemma wrapper_closure_not_block body : arg_is_block (wrapper_closure cfg body) = false.
+    Proof. unfold wrapper_closure. destruct (is_async cfg && is_spawn cfg); reflexivity. Qed.
+
     Lemma wrapper_replace_inner {A} c (x : A) : can_be_wrapper c = true -> replace_inner c [x] = Some [x].
     Proof. destruct c; try discriminate; reflexivity. Qed.
 
     Lemma render_NWrap_inv e a inner ds s ds' s' :
       render_node cfg b (NWrap e a inner) (ds, s) = Ok (ds', s') -> can_be_wrapper (a_comb a) = true ->
       exists body, render_nodes cfg b inner (ds, RVar n_v) = Ok (ds', body) /\
-                   expand cfg s (a_comb a) [RClosure n_v body] (a_ops a) = Ok s'.
+                   expand cfg s (a_comb a) [wrapper_closure cfg body] (a_ops a) = Ok s'.
     Proof.
       rewrite render_node_NWrap. cbn [fst snd]. intros H Hw.
       destruct (render_nodes cfg b inner (ds, RVar n_v)) as [[ds1 body]| |]; cbn [rbind] in H; try discriminate.
@@ -621,8 +625,8 @@ Section Chain.
       cbn [p_comb p_args p_ops p_branch p_expr] in H.
       assert (Hc : is_replaceable (a_comb a) && has_inner_exprs (a_comb a) = true)
         by (destruct (a_comb a); try discriminate; reflexivity).
-      rewrite Hc in H. cbn [hoist arg_is_block] in H.
-      destruct (expand cfg s (a_comb a) [RClosure n_v body] (a_ops a)) as [s1| |] eqn:He; cbn [rbind] in H; try discriminate.
+      rewrite Hc in H. cbn [hoist] in H. rewrite wrapper_closure_not_block in H.
+      destruct (expand cfg s (a_comb a) [wrapper_closure cfg body] (a_ops a)) as [s1| |] eqn:He; cbn [rbind] in H; try discriminate.
       inversion H; subst. exists body. rewrite app_nil_r. split; [reflexivity|exact He].
     Qed.
 
@@ -716,14 +720,14 @@ Section Chain.
 
     Lemma NWrap_sem ρ e a inner body s s' :
       chain_env ρ -> can_be_wrapper (a_comb a) = true ->
-      expand cfg s (a_comb a) [RClosure n_v body] (a_ops a) = Ok s' ->
+      expand cfg s (a_comb a) [wrapper_closure cfg body] (a_ops a) = Ok s' ->
       leaves not_clo (D s ρ) ->
       (forall v, D body (upd ρ n_v (DV v)) = Sem_nodes async sn cp b inner (Ret (DV v))) ->
       D s' ρ = Sem_node async sn cp b (NWrap e a inner) (D s ρ).
     Proof.
       intros Hρ Hw He Hnc IH.
-      assert (Hclo : D (RClosure n_v body) ρ = Ret (wrap_clo async sn cp b inner)).
-      { rewrite den_RClosure. unfold wrap_clo. f_equal. f_equal. extensionality vs.
+      assert (Hclo : D (wrapper_closure cfg body) ρ = Ret (wrap_clo async sn cp b inner)).
+      { rewrite den_wrapper_closure, den_RClosure. unfold wrap_clo. f_equal. f_equal. extensionality vs.
         destruct vs as [|v [|]]; try reflexivity. rewrite IH. reflexivity. }
       rewrite sem_node_NWrap.
       destruct (a_comb a) eqn:Ec; try discriminate Hw; cbn [expand] in He;
